@@ -272,6 +272,12 @@ func readHTTPRequest(req *http.Request) (*FederationRequest, error) { // nolint:
 
 	result.fields.Method = req.Method
 	result.fields.RequestURI = req.URL.RequestURI()
+	// The method and request URI are signed as JSON strings. Encoding a string that is
+	// not valid UTF-8 as JSON replaces the offending bytes with U+FFFD, so one signature
+	// would cover many different methods or URIs. Refuse such requests.
+	if !utf8.ValidString(result.fields.Method) || !utf8.ValidString(result.fields.RequestURI) {
+		return nil, fmt.Errorf("gomatrixserverlib: The request method or URI contained invalid UTF-8")
+	}
 
 	content, err := io.ReadAll(req.Body)
 	if err != nil {
